@@ -151,7 +151,7 @@ def run_replay(path: str, timeout=300) -> tuple[bool, str]:
     return proc.returncode == 1, (proc.stdout + proc.stderr)[-2000:]
 
 
-def bounds_tier(pid, tier):
+def bounds_tier(pid, tier, oid=None):
     """The tier whose bounds a run uses.  tiers.json lists the properties whose deeper (thorough)
     bounds were not verified to complete within the time limits on this machine: for those the
     thorough command runs the quick bounds (a time-out is never a pass, and a registered command that
@@ -161,10 +161,14 @@ def bounds_tier(pid, tier):
     path = os.path.join(VERIF, "tiers.json")
     try:
         with open(path) as fh:
-            same = json.load(fh).get("thorough_runs_quick_bounds", [])
+            cfg = json.load(fh)
     except (OSError, ValueError):
-        same = []
-    return "quick" if pid in same else tier
+        cfg = {}
+    same = cfg.get("thorough_runs_quick_bounds", [])
+    obs = cfg.get("obligations_thorough_runs_quick_bounds", [])
+    if pid in same or (oid is not None and f"{pid}:{oid}" in obs):
+        return "quick"
+    return tier
 
 
 def _child(modname, oid, tier, conn):
@@ -220,7 +224,7 @@ def run_property(pid: str, tier: str, only: list[str] | None = None, jobs: int |
         while pending and len(running) < jobs:
             ob = pending.pop(0)
             parent, child = ctx.Pipe(duplex=False)
-            proc = ctx.Process(target=_child, args=(modname, ob.oid, bounds_tier(pid, tier), child), daemon=False)
+            proc = ctx.Process(target=_child, args=(modname, ob.oid, bounds_tier(pid, tier, ob.oid), child), daemon=False)
             # worker processes an obligation may fork for its own exploration (E-SQL paths): its share
             # of the cores by weight
             os.environ["VF_WORKERS"] = str(max(1, min(ncpu, round(ncpu * max(1, ob.weight) / total_w))))
